@@ -70,7 +70,11 @@ func vAppNode() (*node.Node, func()) {
 	}
 	srv := httptest.NewServer(http.HandlerFunc(func(w http.ResponseWriter, r *http.Request) {
 		w.Header().Set("Content-Type", "application/json")
-		json.NewEncoder(w).Encode(map[string]interface{}{"jsonrpc": "2.0", "id": "jsonrpc-client", "error": map[string]interface{}{"code": -32603, "message": "Internal error", "data": "tx not found"}})
+		var req struct {
+			ID json.RawMessage `json:"id"`
+		}
+		json.NewDecoder(r.Body).Decode(&req)
+		json.NewEncoder(w).Encode(map[string]interface{}{"jsonrpc": "2.0", "id": req.ID, "error": map[string]interface{}{"code": -32603, "message": "Internal error", "data": "tx not found"}})
 	}))
 	n := &node.Node{}
 	cfg := tmcfg.DefaultConfig()
@@ -111,10 +115,10 @@ func vOpenFull(db dbm.DB, n *node.Node, keepAll bool) *vFullApp {
 	keyGov := sdk.NewKVStoreKey(types.StoreKey)
 	tkeyGov := sdk.NewTransientStoreKey("transient_gov")
 	maccPerms := map[string][]string{
-		auth.FeeCollectorName:     nil,
-		postypes.StakedPoolName:   {auth.Burner, auth.Staking, auth.Minter},
-		postypes.ModuleName:       {auth.Burner, auth.Staking, auth.Minter},
-		types.DAOAccountName:      {auth.Burner, auth.Staking, auth.Minter},
+		auth.FeeCollectorName:   nil,
+		postypes.StakedPoolName: {auth.Burner, auth.Staking, auth.Minter},
+		postypes.ModuleName:     {auth.Burner, auth.Staking, auth.Minter},
+		types.DAOAccountName:    {auth.Burner, auth.Staking, auth.Minter},
 	}
 	authSpace := sdk.NewSubspace(auth.DefaultParamspace)
 	posSpace := sdk.NewSubspace(poskeeper.DefaultParamspace)
@@ -133,7 +137,9 @@ func vOpenFull(db dbm.DB, n *node.Node, keepAll bool) *vFullApp {
 		}
 		return v.mm.InitGenesis(ctx, gs)
 	})
-	app.SetBeginBlocker(func(ctx sdk.Ctx, req abci.RequestBeginBlock) abci.ResponseBeginBlock { return v.mm.BeginBlock(ctx, req) })
+	app.SetBeginBlocker(func(ctx sdk.Ctx, req abci.RequestBeginBlock) abci.ResponseBeginBlock {
+		return v.mm.BeginBlock(ctx, req)
+	})
 	app.SetEndBlocker(func(ctx sdk.Ctx, req abci.RequestEndBlock) abci.ResponseEndBlock { return v.mm.EndBlock(ctx, req) })
 	app.SetAnteHandler(auth.NewAnteHandler(v.ak))
 	app.MountStores(keyAcc, keyPos, keyGov, sdk.ParamsKey, sdk.ParamsTKey, tkeyGov)
@@ -149,7 +155,7 @@ const vAppChain = "verif-chain"
 var vAppT0 = time.Unix(1600000000, 0).UTC()
 
 // vAppGenesis: accounts 0..4 are funded accounts with their keys, 3 and 4 are staked validators as well.
-func vAppGenesis(cdc *codec.Codec, daoOwner sdk.Address) []byte {
+func vAppGenesis(cdc *codec.Codec, daoOwner sdk.Address, daoTokens int64) []byte {
 	var accs authtypes.Accounts
 	for i := 0; i < 5; i++ {
 		_, pub := vAppKey(i)
@@ -171,7 +177,7 @@ func vAppGenesis(cdc *codec.Codec, daoOwner sdk.Address) []byte {
 		"pos/SignedBlocksWindow", "pos/MinSignedPerWindow", "pos/DowntimeJailDuration", "pos/SlashFractionDoubleSign", "pos/SlashFractionDowntime"} {
 		acl.SetOwner(k, daoOwner)
 	}
-	gg := types.NewGenesisState(types.Params{ACL: acl, DAOOwner: daoOwner, Upgrade: types.Upgrade{}}, sdk.NewInt(5000000))
+	gg := types.NewGenesisState(types.Params{ACL: acl, DAOOwner: daoOwner, Upgrade: types.Upgrade{}}, sdk.NewInt(daoTokens))
 	gs := map[string]json.RawMessage{
 		auth.ModuleName:     cdc.MustMarshalJSON(ag),
 		postypes.ModuleName: cdc.MustMarshalJSON(pg),
@@ -212,14 +218,15 @@ func vAppTx(cdc *codec.Codec, msg sdk.Msg, signer int, forgedBy int, entropy int
 var vStakeAmount sdk.Int // what the stake transaction of block 2 (kind 1) stakes
 
 type vBlockIn struct {
-	h         int64
-	proposer  int // validator index 3 or 4
-	signed3   bool
-	signed4   bool
-	evidence  bool
-	evAge     int64 // seconds between the infraction and this block
-	evPower   int64 // the power tendermint reports for the offender
-	txs       [][]byte
+	h        int64
+	proposer int // validator index 3 or 4
+	signed3  bool
+	signed4  bool
+	evidence bool
+	evAge    int64         // seconds between the infraction and this block
+	evPower  int64         // the power tendermint reports for the offender
+	late     time.Duration // extra time that passed before this block (block times are arbitrary but monotone)
+	txs      [][]byte
 }
 
 type vBlockOut struct {
@@ -235,15 +242,13 @@ func (v *vFullApp) block(b vBlockIn) vBlockOut {
 	_, p3 := vAppKey(3)
 	_, p4 := vAppKey(4)
 	_, pp := vAppKey(b.proposer)
-	req := abci.RequestBeginBlock{Header: abci.Header{Height: b.h, ChainID: vAppChain, Time: vAppT0.Add(time.Duration(b.h) * time.Minute), ProposerAddress: pp.Address()}}
+	req := abci.RequestBeginBlock{Header: abci.Header{Height: b.h, ChainID: vAppChain, Time: vAppT0.Add(time.Duration(b.h)*time.Minute + b.late), ProposerAddress: pp.Address()}}
 	if b.h > 1 {
-		req.LastCommitInfo = abci.LastCommitInfo{Votes: []abci.VoteInfo{
-			{Validator: abci.Validator{Address: p3.Address(), Power: 23}, SignedLastBlock: b.signed3},
-			{Validator: abci.Validator{Address: p4.Address(), Power: 24}, SignedLastBlock: b.signed4},
-		}}
+		req.LastCommitInfo = abci.LastCommitInfo{Votes: []abci.VoteInfo{{Validator: abci.Validator{Address: p3.Address(), Power: 23}, SignedLastBlock: b.signed3}}}
+		req.LastCommitInfo.Votes = append(req.LastCommitInfo.Votes, abci.VoteInfo{Validator: abci.Validator{Address: p4.Address(), Power: 24}, SignedLastBlock: b.signed4})
 	}
 	if b.evidence {
-		req.ByzantineValidators = []abci.Evidence{{Type: tmtypes.ABCIEvidenceTypeDuplicateVote, Validator: abci.Validator{Address: p4.Address(), Power: b.evPower}, Height: b.h - 1, Time: vAppT0.Add(time.Duration(b.h)*time.Minute - time.Duration(b.evAge)*time.Second)}}
+		req.ByzantineValidators = []abci.Evidence{{Type: tmtypes.ABCIEvidenceTypeDuplicateVote, Validator: abci.Validator{Address: p4.Address(), Power: b.evPower}, Height: b.h - 1, Time: vAppT0.Add(time.Duration(b.h)*time.Minute + b.late - time.Duration(b.evAge)*time.Second)}}
 	}
 	func() {
 		defer func() {
@@ -287,7 +292,7 @@ func vSameOut(a, b vBlockOut) bool {
 // vAppBlocks draws the ABCI history: three blocks with symbolic votes, an optional double-sign evidence and one
 // transaction of a symbolic kind (send, stake, begin-unstake, DAO transfer by the owner / by a stranger, a forged
 // signature, undecodable bytes) in block 2, and a follow-up transaction in block 3.
-func vAppBlocks(cdc *codec.Codec, symbolic bool, symPower bool, oneVoteChoice bool) ([]vBlockIn, int) {
+func vAppBlocks(cdc *codec.Codec, symbolic bool, symPower bool, oneVoteChoice bool, unjailInBlock3 bool, unstakeInBlock1 bool) ([]vBlockIn, int) {
 	_, k0 := vAppKey(0)
 	_, k1 := vAppKey(1)
 	_, k2 := vAppKey(2)
@@ -313,9 +318,20 @@ func vAppBlocks(cdc *codec.Codec, symbolic bool, symPower bool, oneVoteChoice bo
 		amt1 = sdk.NewIntFromBigInt(zz.Big("h1_send_amount", big.NewInt(1), big.NewInt(50000000)))
 	}
 	bs[0].txs = [][]byte{vAppTx(cdc, postypes.MsgSend{FromAddress: a0, ToAddress: a1, Amount: amt1}, 0, -1, 1)}
+	if unstakeInBlock1 {
+		// validator 4 begins to unstake in the very first block after InitChain
+		bs[0].txs = [][]byte{vAppTx(cdc, postypes.MsgBeginUnstake{Address: a4}, 4, -1, 1)}
+	}
 	var tx []byte
-	kind := zz.Choice("h2_tx", 10)
+	kind := 0
+	if !unstakeInBlock1 {
+		kind = zz.Choice("h2_tx", 12)
+	}
 	switch kind {
+	case 11: // the DAO owner tries to burn more than the DAO holds
+		tx = vAppTx(cdc, types.MsgDAOTransfer{FromAddress: a0, Amount: sdk.NewInt(6000000), Action: types.DAOBurnString}, 0, -1, 2)
+	case 10: // a validator that is not jailed asks to be unjailed
+		tx = vAppTx(cdc, postypes.MsgUnjail{ValidatorAddr: a4}, 4, -1, 2)
 	case 0:
 		amt := sdk.NewInt(3000000)
 		if symbolic {
@@ -345,14 +361,27 @@ func vAppBlocks(cdc *codec.Codec, symbolic bool, symPower bool, oneVoteChoice bo
 	case 9: // a stranger tries the same
 		tx = vAppTx(cdc, types.MsgChangeParam{FromAddress: a1, ParamKey: "pos/MaxValidators", ParamVal: cdc.MustMarshalJSON(uint64(1))}, 1, -1, 2)
 	}
-	bs[1].txs = [][]byte{tx}
+	if kind == 2 || unstakeInBlock1 {
+		// block 3 comes a symbolic time after block 2: before, at or past the unstaking time (21 days) of the validator that
+		// began to unstake in block 2
+		bs[2].late = time.Duration(zz.Int64("h3_seconds_later", 0, 23*24*3600)) * time.Second
+	}
+	// block 2: the transaction of the drawn kind, then an ordinary send that must go through whatever the first one did
+	bs[1].txs = [][]byte{tx, vAppTx(cdc, postypes.MsgSend{FromAddress: a2, ToAddress: a0, Amount: sdk.NewInt(500000)}, 2, -1, 22)}
 	bs[2].txs = [][]byte{vAppTx(cdc, postypes.MsgSend{FromAddress: a2, ToAddress: a0, Amount: sdk.NewInt(1000000)}, 2, -1, 3)}
+	if unjailInBlock3 {
+		// validator 4 asks to be unjailed in block 3: by then it is either not jailed or convicted (tombstoned) by the evidence
+		bs[2].txs = [][]byte{vAppTx(cdc, postypes.MsgUnjail{ValidatorAddr: a4}, 4, -1, 3)}
+	}
 	return bs, kind
 }
 
 // state read back from the committed state of a running application
-func (v *vFullApp) view(h int64) sdk.Context {
-	return v.app.NewContext(true, abci.Header{Height: h, ChainID: vAppChain, Time: vAppT0.Add(time.Duration(h) * time.Minute)})
+// (on a cache-wrapped branch that is thrown away: keeper reads create missing module accounts as a side effect, and the
+// check state of this fork sits directly on the working stores)
+func (v *vFullApp) view(b vBlockIn) sdk.Context {
+	ctx, _ := v.app.NewContext(true, abci.Header{Height: b.h, ChainID: vAppChain, Time: vAppT0.Add(time.Duration(b.h)*time.Minute + b.late)}).CacheContext()
+	return ctx
 }
 
 func (v *vFullApp) sumBalances(ctx sdk.Context) sdk.Int {
@@ -442,18 +471,23 @@ func vFullRun(p string) {
 	keepAll := zz.Choice("keep_all_versions_symbolic_amounts", 2) == 1
 	a, b := vOpenFull(dbA, n, keepAll), vOpenFull(dbB, n, keepAll)
 	_, k0 := vAppKey(0)
-	gen := vAppGenesis(a.cdc, sdk.Address(k0.Address()))
+	daoTokens := int64(5000000)
+	if p == "C11" && zz.Choice("dao_starts_empty", 2) == 1 {
+		daoTokens = 0
+	}
+	gen := vAppGenesis(a.cdc, sdk.Address(k0.Address()), daoTokens)
 	ra := a.app.InitChain(abci.RequestInitChain{ChainId: vAppChain, Time: vAppT0, AppStateBytes: gen})
 	rb := b.app.InitChain(abci.RequestInitChain{ChainId: vAppChain, Time: vAppT0, AppStateBytes: gen})
 	if p == "C01" {
 		zz.Assert("C01.full.same-initchain-validators", reflect.DeepEqual(ra.Validators, rb.Validators) && len(ra.Validators) == 2)
 	}
 	tm := vTMSet{}
-	if p == "C05" {
-		zz.Assert("C05.full.initchain-batch-applicable", tm.apply(ra.Validators))
+	if p == "C05" || p == "C09" {
+		zz.Assert(p+".full.initchain-batch-applicable", tm.apply(ra.Validators))
 	}
+	unstakeInBlock1 := p == "C06" && zz.Choice("begin_unstake_in_block_1", 2) == 1
 	// (the two-replica variant draws one vote pattern for both later blocks in the quick tier: it runs everything twice)
-	blocks, kind := vAppBlocks(a.cdc, keepAll, p == "C07" || p == "C02", p == "C01" && !zz.Thorough())
+	blocks, kind := vAppBlocks(a.cdc, keepAll, p == "C07" || p == "C02", p == "C01" && !zz.Thorough(), p == "C09", unstakeInBlock1)
 	restartAfter := int64(0)
 	if p == "C01" {
 		restartAfter = int64(zz.Choice("restart_after", 4)) // 0 = never
@@ -461,6 +495,12 @@ func vFullRun(p string) {
 	var supply0, prevPool, prevSupply sdk.Int
 	vPassesAnte := kind != 5 // every transaction kind but the forged signature passes the ante handler and pays
 	for _, blk := range blocks {
+		if p == "C10" {
+			// the mempool checks the transactions first (nothing of that may reach the fee collector)
+			for _, tx := range blk.txs {
+				a.app.CheckTx(abci.RequestCheckTx{Tx: tx})
+			}
+		}
 		oa := a.block(blk)
 		if oa.crashed {
 			// BeginBlocker panics on evidence it is meant to ignore (here: expired) - the behaviour the repository's own
@@ -473,23 +513,33 @@ func vFullRun(p string) {
 			zz.Reach(p + ".full.beginblock-panics-on-expired-evidence")
 			return
 		}
-		ctx := a.view(blk.h)
+		ctx := a.view(blk)
 		// which transactions execute is part of every claim below (and of the comparison with the native build)
-		okWanted := blk.h != 2 || (kind != 4 && kind != 5 && kind != 7 && kind != 9)
-		zz.Assert(p+".full.transactions-succeed-or-fail-as-expected", len(oa.deliver) == 1 && (oa.deliver[0].Code == 0) == okWanted)
+		failsInHandler := kind == 4 || kind == 7 || kind == 9 || kind == 10 || kind == 11 || (kind == 3 && daoTokens == 0)
+		okWanted := blk.h != 2 || (kind != 5 && !failsInHandler)
+		if p == "C09" && blk.h == 3 {
+			okWanted = false // an unjail request succeeds only for a jailed validator, and never once tombstoned
+		}
+		zz.Assert(p+".full.transactions-succeed-or-fail-as-expected", len(oa.deliver) == len(blk.txs) && (oa.deliver[0].Code == 0) == okWanted &&
+			(len(oa.deliver) < 2 || oa.deliver[1].Code == 0))
 		switch p {
 		case "C11":
 			// replica b gets the same blocks without the transaction that is going to be rejected
 			nb := blk
 			if blk.h == 2 && !okWanted {
-				nb.txs = nil
+				nb.txs = blk.txs[1:]
 			}
 			ob := b.block(nb)
 			_, p1 := vAppKey(1)
+			if kind == 10 {
+				_, p1 = vAppKey(4) // the unjail request is validator 4's
+			} else if kind == 11 || kind == 3 {
+				_, p1 = vAppKey(0) // the burn / transfer request is the DAO owner's
+			}
 			payer := sdk.Address(p1.Address())
 			if blk.h == 2 && !okWanted && vPassesAnte {
 				// refused by its handler after the ante handler took the fee: the fee moved payer -> collector, nothing else
-				bctx := b.view(blk.h)
+				bctx := b.view(blk)
 				same := true
 				for i := 0; i < 5; i++ {
 					_, pi := vAppKey(i)
@@ -501,10 +551,12 @@ func vFullRun(p string) {
 						same = same && d.IsZero()
 					}
 				}
+				// (counted before any keeper read that would create a missing module account on the throw-away branch)
+				na, nb := len(a.ak.GetAllAccounts(ctx)), len(b.ak.GetAllAccounts(bctx))
 				zz.Assert("C11.full.failed-handler-costs-the-fee-and-nothing-else", same &&
 					a.gk.GetDAOTokens(ctx).Equal(b.gk.GetDAOTokens(bctx)) && a.pk.GetStakedTokens(ctx).Equal(b.pk.GetStakedTokens(bctx)) &&
-					len(a.pk.GetAllValidators(ctx)) == len(b.pk.GetAllValidators(bctx)))
-			} else if !(kind == 4 || kind == 7 || kind == 9) || blk.h < 2 {
+					len(a.pk.GetAllValidators(ctx)) == len(b.pk.GetAllValidators(bctx)) && na == nb)
+			} else if !failsInHandler || blk.h < 2 {
 				// refused by the ante handler (or nothing refused): not a trace - same app hash as the replica that never saw it
 				zz.Assert("C11.full.ante-rejected-transaction-leaves-no-trace", bytes.Equal(oa.hash, ob.hash))
 			}
@@ -512,6 +564,9 @@ func vFullRun(p string) {
 			// replica b also serves mempool and query traffic the other replica never sees
 			for _, tx := range blk.txs {
 				b.app.CheckTx(abci.RequestCheckTx{Tx: tx})
+			}
+			for _, tx := range blk.txs {
+				b.app.Query(abci.RequestQuery{Path: "/app/simulate", Data: tx})
 			}
 			b.app.Query(abci.RequestQuery{Path: "/custom/pos/validators", Data: nil})
 			b.app.Query(abci.RequestQuery{Path: "/store/pos/key", Data: []byte{0x21}, Height: blk.h - 1})
@@ -578,6 +633,51 @@ func vFullRun(p string) {
 				wantDAO -= 1000000 // the DAO owner's transfer, by exactly the stated amount
 			}
 			zz.Assert("C17.full.dao-funds-move-only-by-the-owner", a.gk.GetDAOTokens(ctx).Equal(sdk.NewInt(wantDAO)))
+		case "C06":
+			_, p4 := vAppKey(4)
+			ad4 := sdk.Address(p4.Address())
+			v4, found4 := a.pk.GetValidator(ctx, ad4)
+			bal4 := a.ak.GetCoins(ctx, ad4).AmountOf(sdk.DefaultStakeDenom).Int64()
+			hU := int64(0) // the block in which validator 4 began to unstake
+			if unstakeInBlock1 {
+				hU = 1
+			} else if kind == 2 {
+				hU = 2
+			}
+			if hU > 0 && blk.h >= hU {
+				fees := int64(100000) // it paid for its begin-unstake transaction
+				if blk.h >= 3 {
+					fees -= 200000 // and, as the proposer of block 2, collected that block's fees (two transactions)
+				}
+				// the unstaking completes UnstakingTime (21 days) after the time of block hU; block 3 is at 3 min + late
+				matured := time.Duration(3-hU)*time.Minute+blk.late >= 21*24*time.Hour
+				switch {
+				case blk.h == 3 && blk.evidence:
+					// convicted in the meantime: everything is burned, nothing is paid out
+					zz.Assert("C06.full.convicted-unstaking-validator-gets-nothing", bal4 == 100000000-fees && (!found4 || (v4.Status == sdk.Unstaked && v4.StakedTokens.IsZero())))
+				case blk.h == 3 && matured:
+					zz.Assert("C06.full.unstaking-pays-out-at-the-first-block-past-maturity", bal4 == 100000000-fees+24000000 && (!found4 || (v4.Status == sdk.Unstaked && v4.StakedTokens.IsZero())))
+				default:
+					zz.Assert("C06.full.unstaking-keeps-the-stake-until-maturity", found4 && v4.Status == sdk.Unstaking && v4.StakedTokens.Equal(sdk.NewInt(24000000)) && bal4 == 100000000-fees)
+				}
+			} else if !(blk.h == 3 && blk.evidence) {
+				zz.Assert("C06.full.status-changes-only-by-its-own-request", found4 && v4.Status == sdk.Staked && v4.StakedTokens.Equal(sdk.NewInt(24000000)))
+			}
+			_, p2 := vAppKey(2)
+			v2, found2 := a.pk.GetValidator(ctx, sdk.Address(p2.Address()))
+			zz.Assert("C06.full.new-validator-only-by-its-own-funded-stake", found2 == (kind == 1 && blk.h >= 2) && (!found2 || (v2.Status == sdk.Staked && v2.StakedTokens.Equal(vStakeAmount))))
+		case "C09":
+			_, p4 := vAppKey(4)
+			v4, found4 := a.pk.GetValidator(ctx, sdk.Address(p4.Address()))
+			zz.Assert("C09.full.endblock-batch-applicable", tm.apply(oa.end.ValidatorUpdates))
+			zz.Assert("C09.full.tendermint-set==staked-unjailed-set", tm.matches(a, ctx))
+			if blk.h == 3 && blk.evidence {
+				info, _ := a.pk.GetValidatorSigningInfo(ctx, sdk.Address(p4.Address()))
+				zz.Assert("C09.full.convicted-validator-stays-jailed-and-out-of-the-set", found4 && v4.Jailed && info.Tombstoned && tm[string(p4.RawBytes())] == 0)
+			} else {
+				matured := kind == 2 && blk.h == 3 && blk.late+time.Minute >= 21*24*time.Hour // paid out and removed
+				zz.Assert("C09.full.refused-unjail-changes-nothing", (found4 && !v4.Jailed) || (!found4 && matured))
+			}
 		case "C04":
 			zz.Assert("C04.full.pool==sum-of-stake", a.pk.GetStakedTokens(ctx).Equal(a.sumStake(ctx)))
 		case "C05":
@@ -587,10 +687,9 @@ func vFullRun(p string) {
 			// fees of this block wait in the collector for the next BeginBlock; everything older has been paid out
 			paid := int64(0)
 			for i := range oa.deliver {
-				if blk.h != 2 || vPassesAnte {
+				if blk.h != 2 || i > 0 || vPassesAnte {
 					paid += 100000
 				}
-				_ = i
 			}
 			fc := a.ak.GetCoins(ctx, a.ak.GetModuleAddress(auth.FeeCollectorName)).AmountOf(sdk.DefaultStakeDenom)
 			zz.Assert("C10.full.collector-holds-exactly-this-blocks-fees", fc.Equal(sdk.NewInt(paid)))
@@ -602,12 +701,18 @@ func vFullRun(p string) {
 			want3, want4 := int64(100000000), int64(100000000)
 			if blk.h >= 2 {
 				want3 += 100000 // fees of block 1
-				if kind == 2 {
-					want4 -= 100000 // validator 4 paid for its begin-unstake transaction in block 2
+				if kind == 2 || kind == 10 {
+					want4 -= 100000 // validator 4 paid for its begin-unstake / unjail transaction in block 2
 				}
 			}
-			if blk.h >= 3 && vPassesAnte {
-				want4 += 100000 // fees of block 2
+			if blk.h >= 3 {
+				want4 += 100000 // fees of block 2: the second transaction ...
+				if vPassesAnte {
+					want4 += 100000 // ... and the first one, unless the ante handler refused it
+				}
+				if kind == 2 && !blk.evidence && blk.late+time.Minute >= 21*24*time.Hour {
+					want4 += 24000000 // its unstaking matured in this block
+				}
 			}
 			zz.Assert("C10.full.previous-proposer-received-the-fees-once", b3 == want3 && b4 == want4)
 			zz.Assert("C10.full.pos-module-keeps-nothing", a.ak.GetCoins(ctx, a.ak.GetModuleAddress(postypes.ModuleName)).IsZero())
@@ -642,13 +747,23 @@ func VerifC07_FullApp() { vFullRun("C07") }
 
 // VerifC11_FullApp: a second replica runs the same blocks without the transaction that is going to be rejected: a
 // transaction refused by the ante handler (forged signature) leaves the app hash of every later block unchanged; one
-// refused by its handler (stranger's DAO transfer or parameter change, overdrawn send) costs its signer the fee and changes nothing else.
+// refused by its handler (stranger's DAO transfer or parameter change, overdrawn send, unjail request of a validator that is not jailed) costs its signer the fee and changes nothing else.
 func VerifC11_FullApp() { vFullRun("C11") }
 
 // VerifC17_FullApp: whole-application histories: the parameters of all three modules stay at their genesis values except
 // that the owner's MsgChangeParam sets exactly pos/MaxValidators (a stranger's is refused), and the DAO balance moves
 // only by the owner's transfer, by exactly its amount.
 func VerifC17_FullApp() { vFullRun("C17") }
+
+// VerifC06_FullApp: whole-application histories incl. a block three weeks later: a validator changes status only by its
+// own transaction (stake, begin-unstake) or by conviction; an unstaking validator keeps its stake until the first block
+// at or after begin + UnstakingTime, is then paid its whole stake, and gets nothing if it was convicted in between.
+func VerifC06_FullApp() { vFullRun("C06") }
+
+// VerifC09_FullApp: whole-application histories in which validator 4 asks to be unjailed - in block 2 (not jailed: refused)
+// and in block 3, after the BeginBlock that may have convicted it for a double sign (tombstoned: refused for ever): the
+// convicted validator is jailed, leaves tendermint's set with the next update and stays out.
+func VerifC09_FullApp() { vFullRun("C09") }
 
 // VerifC04_FullApp: after every Commit the staked pool holds exactly the recorded stake.
 func VerifC04_FullApp() { vFullRun("C04") }
